@@ -4,7 +4,7 @@ import CoclsModel.ChainProofs
 
 Same model and quantifiers as C01 (`Chain.lean`; every configuration `c : Cfg` — any number of waiters of every kind:
 coroutine, blocking thread, callback, `has_value()` awaiter, against any number of resolver calls and destructor
-agents — and every schedule: `Reachable c s` = `∃ sched, s = run c (init c) sched`).
+agents (`~promise`, and `~promise_with_default` resolving with a default value) — and every schedule: `Reachable c s` = `∃ sched, s = run c (init c) sched`).
 
 Ghost fields read by the statements: `subscribed w` (w's CAS push succeeded), `woken w` (number of times the walker
 released `w`: `flag.store(true)` for a blocking waiter, resume / callback invocation otherwise), `observed w` (number
@@ -143,11 +143,12 @@ example : (runEv c02Cfg (init c02Cfg) c02Sched).2.countP (isObsOf 3) = 1 := by d
 /-! ## no lost wake-up -/
 
 /-- **No lost wake-up.**  In every reachable state in which the resolving agent (the winning call, or the destructor
-if it resolved) has finished: the slot is `ready`, every subscribed waiter has been released exactly once, and every
+if it resolved) has finished — `done`, or `dFin` for `~promise_with_default`, whose base destructor runs after its walk —
+the slot is `ready`, every subscribed waiter has been released exactly once, and every
 waiter agent either has had its result read exactly once or is itself still on its way to read it (and then it is
 not blocked: its next step is enabled). -/
 theorem c02_no_lost_wakeup (c : Cfg) (s : State) (hr : Reachable c s) (r : Nat) (hwin : s.winner = some r)
-    (hdone : s.pc r = Pc.done) :
+    (hdone : s.pc r = Pc.done ∨ s.pc r = Pc.dFin) :
     s.slot = Slot.ready ∧
     (∀ w, s.subscribed w = true → s.woken w = 1) ∧
     (∀ w, isW c w = true → s.observed w = 1 ∨ (s.observed w = 0 ∧ s.pc w ≠ Pc.done ∧ enabled c s w = true)) := by
@@ -156,15 +157,16 @@ theorem c02_no_lost_wakeup (c : Cfg) (s : State) (hr : Reachable c s) (r : Nat) 
     rcases slot_cases s with hs | ⟨l, hl⟩
     · exact hs
     · have := (h.chain_phase l hl).2.2 r hwin
-      simp [hdone, isResolve] at this
+      rcases hdone with hdone | hdone <;> simp [hdone, isResolve] at this
+  have hacts : actsOf (s.pc r) = [] := by rcases hdone with hdone | hdone <;> simp [hdone, actsOf]
   refine ⟨hs, ?_, ?_⟩
   · intro w hw
     have := h.readyW hs r hwin w
-    simpa [hdone, actsOf, hw] using this
+    simpa [hacts, hw] using this
   · intro w hw
     have hO := h.readyO hs r hwin w
     have hW := h.readyW hs r hwin w
-    simp only [hdone, actsOf, cntO_nil, cntW_nil, hw, if_true, Nat.add_zero] at hO hW
+    simp only [hacts, cntO_nil, cntW_nil, hw, if_true, Nat.add_zero] at hO hW
     by_cases ho : s.observed w = 1
     · exact Or.inl ho
     · right
@@ -203,6 +205,18 @@ example : (run c02Cfg (init c02Cfg) (c02Sched.take 14)).winner = some 0
     ∧ (run c02Cfg (init c02Cfg) (c02Sched.take 14)).pc 0 = Pc.done
     ∧ (run c02Cfg (init c02Cfg) (c02Sched.take 14)).pc 2 = Pc.wBlocked
     ∧ enabled c02Cfg (run c02Cfg (init c02Cfg) (c02Sched.take 14)) 2 = true := by decide
+
+/-- the same with the destruction of a `promise_with_default` (default 42) as the resolving agent: after its walk (`dFin`,
+the base destructor still to return) the callback waiter and the `has_value()` awaiter have been served inline, the
+blocking waiter is released and can go on -/
+example :
+    let c : Cfg := { n := 4, kind := fun i => match i with
+      | 0 => Kind.wait WK.cb | 1 => Kind.wait WK.sync | 2 => Kind.wait WK.hasv | _ => Kind.ddef 42 }
+    let s := run c (init c) [0, 0, 1, 1, 1, 1, 2, 2, 2, 3, 3, 3, 3]
+    s.winner = some 3 ∧ s.pc 3 = Pc.dFin ∧ s.observed 0 = 1 ∧ s.observed 2 = 1 ∧ s.woken 1 = 1
+      ∧ s.pc 1 = Pc.wBlocked ∧ enabled c s 1 = true
+      ∧ Ev.obs 0 (Obs.val 42) ∈ (runEv c (init c) [0, 0, 1, 1, 1, 1, 2, 2, 2, 3, 3, 3, 3]).2
+      ∧ Ev.obs 2 (Obs.hv true) ∈ (runEv c (init c) [0, 0, 1, 1, 1, 1, 2, 2, 2, 3, 3, 3, 3]).2 := by decide
 
 /-- **Not stuck.**  With a resolving party in the configuration, a reachable state in which no agent is enabled is a
 state in which every agent has finished: there is no deadlock and no waiter is left suspended. -/
